@@ -50,6 +50,12 @@ T9 = {
     "fileio/read_elf.cpp": ["read_elf"],
     "disasm/tms9900.cpp": ["list_output_tms9900", "disasm_range_tms9900"],
     "disasm/msp430.cpp": ["list_output_msp430_both"],
+    "disasm/6800.cpp": ["list_output_6800"],
+    "disasm/6800.h": ["list_output_6800"],
+    "disasm/6809.cpp": ["list_output_6809"],
+    "disasm/6809.h": ["list_output_6809"],
+    "disasm/68hc08.cpp": ["list_output_68hc08"],
+    "disasm/68hc08.h": ["list_output_68hc08"],
     "disasm/tms9900.h": ["list_output_tms9900", "disasm_range_tms9900"],
     "fileio/read_amiga.cpp": ["read_amiga", "read_hunk_header", "read_code", "read_int32"],
     "fileio/read_amiga.h": ["read_amiga"],
@@ -182,6 +188,9 @@ EXTRACT = [
     ("disasm/tms9900.cpp", r"^(?:extern \"C\" )?void list_output_tms9900\(", "list_output_tms9900.inc"),
     ("disasm/msp430.cpp", r"^(?:extern \"C\" |static )?void list_output_msp430_both\(", "list_output_msp430_both.inc"),
     ("disasm/tms9900.cpp", r"^(?:extern \"C\" )?void disasm_range_tms9900\(", "disasm_range_tms9900.inc"),
+    ("disasm/6800.cpp", r"^(?:extern \"C\" )?void list_output_6800\(", "list_output_6800.inc"),
+    ("disasm/6809.cpp", r"^(?:extern \"C\" )?void list_output_6809\(", "list_output_6809.inc"),
+    ("disasm/68hc08.cpp", r"^(?:extern \"C\" )?void list_output_68hc08\(", "list_output_68hc08.inc"),
     ("core/AsmContext.cpp", r"^int AsmContext::link\(\)", "AsmContext_link.inc"),
     ("core/Linker.cpp", r"^uint8_t \*Linker::get_code_from_symbol\(", "Linker_get_code_from_symbol.inc"),
     ("core/UtilContext.cpp", r"^void UtilContext::print8\(const char \*token\)", "UtilContext_print8.inc"),
